@@ -34,6 +34,9 @@ def compute_val_score(clf, X, y, batch_size, gemini_objective):
     selection_mask = np.arange(X.shape[1])
     if clf.dynamic and y is None:
         selection_mask = clf.get_selection()
+        if len(selection_mask) == 0:
+            # No feature is selected any longer: the predictions are constant, so any affinity yields the same score
+            selection_mask = np.arange(X.shape[1])
     j = 0
     while j < len(X):
         X_batch = X[j:j + batch_size]
